@@ -77,7 +77,7 @@ PROPS = {
         design_ref='DESIGN.md §11 "Weight-sum typing"',
     ),
     'C08': dict(
-        rules=[r_linear.rule_L01_c08, r_seed.l02_seed_degree, r_step.s07n_seed_reaches_state, r_formula.s07l_latch_seeding],
+        rules=[r_linear.rule_L01_c08, r_seed.l02_seed_degree, r_step.s07n_seed_reaches_state, r_formula.s07l_latch_seeding, r_formula.s07p_pure_feed_seeding],
         feature_sets=_sets(['default'], ['default', 'u16', 'f32']),
         rules_thorough=[on_build(r_linear.rule_L01_c08, 'u16'), on_build(r_linear.rule_L01_c08, 'f32')],
         explanation=('(L01) for every method over a single value whose constructor and next() stay inside the affine-form domain (see C15): the state the '
@@ -91,7 +91,8 @@ PROPS = {
                      'method starts at the seed and decays towards the level of what it is fed, so the constant candle does not give constant values. 31 of 37 indicators are inside the path budget. '
                      '(S07n) on every path of every Method::new that returns Ok, the returned state is computed from the construction value (two named exceptions: the windowless ADI and CollapseTimeframe): '
                      'a constructor that returns defaults - or primes copies it then drops - has no prehistory at all. '
-                     '(S07l) every latch - a state field that every store in next() overwrites with one accessor of the current input (prev_close = candle.close(), last_value = value) - is seeded by new() / init() with the same accessor of the construction value.'),
+                     '(S07l) every latch - a state field that every store in next() overwrites with one accessor of the current input (prev_close = candle.close(), last_value = value) - is seeded by new() / init() with the same accessor of the construction value. '
+                     '(S07p) every component (Window, inner method, configurable average) that next() feeds one pure function g(input, configuration) of the current input on every call is seeded by new() / init() with g(construction value, configuration) (90 components on the pinned tree, all agree).'),
         not_decided=['indicators (candle input), selections, dispersion methods and every method with a product of stream values or a stream-dependent branch: outside the domain, listed as undecided',
                      'exact constancy in floating point / absence of drift: the argument is over the reals',
                      'indicators: only the translation degree of a seed is decided (price level vs difference); a difference-like quantity that is not zero on a constant candle (high - low, volume) seeded with 0.0 is not seen; six indicators exceed the path budget and are listed as undecided'],
